@@ -251,6 +251,28 @@ func runC11(c *core.Ctx) {
 	}
 	c.Analysed(core.FuncName(ds))
 	c11subscribe(c, ds, ev)
+	// the handlers a subscription runs on are the ones configured when Subscribe was called: the handler fields of the
+	// MonadIO are read in the subscribing call itself, never inside a closure that runs later (on a handler's goroutine,
+	// after the effect) - a SubscribeOn / ObserveOn made meanwhile on the same MonadIO would redirect a subscription
+	// that is already in flight
+	late := ""
+	for _, f := range p.Funcs {
+		if f.Parent() == nil || f.Pkg != p.Fpgo && !p.InRepo(f) {
+			continue
+		}
+		core.Instrs(f, func(ins ssa.Instruction) {
+			ld, ok := ins.(*ssa.UnOp)
+			if !ok || ld.Op != token.MUL {
+				return
+			}
+			if k := core.FieldKey(ld.X); k == "MonadIODef.subOn" || k == "MonadIODef.obOn" {
+				if _, isFA := ld.X.(*ssa.FieldAddr); isFA {
+					late = core.FuncName(f) + " reads " + k + " at " + p.InstrPos(ins)
+				}
+			}
+		})
+	}
+	c.Check(late == "", "R3", "Subscribe/handler-snapshot", p.Pos(ds.Pos()), "the handler fields are read by the subscribing call itself, not by the closures it posts", "a closure that runs later "+late+": a SubscribeOn / ObserveOn made on the same MonadIO after Subscribe was called changes the goroutine a subscription already in flight delivers on")
 }
 
 func c11flatMapClosure(p *core.Prog, fm, cl *ssa.Function, ev *c11evals) (bool, string) {
